@@ -197,3 +197,61 @@ package kgo
 //@ func (r *RecordReader) next(rec *Record) (err error)
 //@   prop C20
 //@   site call parse#0 assert [a-fixed-size-parser-gets-its-bytes] fn.read.size > 0 ==> len(arg0) >= fn.read.size
+
+// The numeric record fields are bound to the same widths on both sides. Reader (parseReadLayout's closures for
+// %p %o %e %d %x %y, $2..$7): the parsed uint64 is stored with the field's own width. Formatter
+// (NewRecordFormatter's closures $6$1 %p, $7$1 %o, $8$1 %e, $10$1 %x, $11$1 %y): the field itself, widened to int64,
+// is what goes to the number writer.
+//@ func (r *RecordReader) parseReadLayout$2(b []byte, rec *Record) (err error)
+//@   mode bv
+//@   prop C20
+//@   site store Partition#0 assert [partition-is-32-bit] val == int32(**dst)
+//@ func (r *RecordReader) parseReadLayout$3(b []byte, rec *Record) (err error)
+//@   mode bv
+//@   prop C20
+//@   site store Offset#0 assert [offset-is-64-bit] val == int64(**dst)
+//@ func (r *RecordReader) parseReadLayout$4(b []byte, rec *Record) (err error)
+//@   mode bv
+//@   prop C20
+//@   site store LeaderEpoch#0 assert [leader-epoch-is-32-bit] val == int32(**dst)
+//@ func (r *RecordReader) parseReadLayout$6(b []byte, rec *Record) (err error)
+//@   mode bv
+//@   prop C20
+//@   site store ProducerID#0 assert [producer-id-is-64-bit] val == int64(**dst)
+//@ func (r *RecordReader) parseReadLayout$7(b []byte, rec *Record) (err error)
+//@   mode bv
+//@   prop C20
+//@   site store ProducerEpoch#0 assert [producer-epoch-is-16-bit] val == int16(**dst)
+//@ func NewRecordFormatter$6$1(b []byte, r *Record) (out []byte)
+//@   prop C20
+//@   site call numfn#0 assert [writes-the-partition] arg1 == int64(r.Partition)
+//@ func NewRecordFormatter$7$1(b []byte, r *Record) (out []byte)
+//@   prop C20
+//@   site call numfn#0 assert [writes-the-offset] arg1 == r.Offset
+//@ func NewRecordFormatter$8$1(b []byte, r *Record) (out []byte)
+//@   prop C20
+//@   site call numfn#0 assert [writes-the-leader-epoch] arg1 == int64(r.LeaderEpoch)
+//@ func NewRecordFormatter$10$1(b []byte, r *Record) (out []byte)
+//@   prop C20
+//@   site call numfn#0 assert [writes-the-producer-id] arg1 == r.ProducerID
+//@ func NewRecordFormatter$11$1(b []byte, r *Record) (out []byte)
+//@   prop C20
+//@   site call numfn#0 assert [writes-the-producer-epoch] arg1 == int64(r.ProducerEpoch)
+
+// The hex readers hand their digits to strconv.ParseUint as base 16, 64 bits (unsigned: a negative int64 written
+// as ffff... reads back).
+//@ func (*RecordReader) parseReadSize$10(b []byte, _ *Record) (err error)
+//@   prop C20
+//@   site call ParseUint#0 assert [unsigned-base-16] arg1 == 16 && arg2 == 64
+//@ func (*RecordReader) parseReadSize$11(b []byte, _ *Record) (err error)
+//@   prop C20
+//@   site call ParseUint#0 assert [unsigned-base-16] arg1 == 16 && arg2 == 64
+//@ func (*RecordReader) parseReadSize$12(b []byte, _ *Record) (err error)
+//@   prop C20
+//@   site call ParseUint#0 assert [unsigned-base-16] arg1 == 16 && arg2 == 64
+//@ func (*RecordReader) parseReadSize$13(b []byte, _ *Record) (err error)
+//@   prop C20
+//@   site call ParseUint#0 assert [unsigned-base-16] arg1 == 16 && arg2 == 64
+//@ func (*RecordReader) parseReadSize$14(b []byte, _ *Record) (err error)
+//@   prop C20
+//@   site call ParseUint#0 assert [unsigned-base-16] arg1 == 16 && arg2 == 64
